@@ -11,7 +11,12 @@ Atomic steps = the critical sections the extractor saw (`Gen.Panel.*UnderLock`):
 * `retire`       — `TerminateActiveUser`'s own `sessionsM` section that sets the retired flag (a no-op on the
                    pinned tree, where it merely marks "a termination of this record has started");
 * `closeAll`     — `closeAllSessions` (under `sessionsM`), enabled only after that thread's `retire`;
-* `deleteRec`    — the `activeUsersM` section of `TerminateActiveUser`, enabled only after that thread's `closeAll`.
+* `deleteRec`    — the `activeUsersM` section of `TerminateActiveUser`, enabled only after that thread's `closeAll`;
+* `refusedCleanup` — the `sessionsM` section of what `dispatchConnection` does with the record after `GetSession`
+                   REFUSED its connection (C15): on the pinned tree `CloseSession(<the connection's own session id>)`,
+                   on the repaired tree a helper that looks at the record only (`cleanupNamesSession`, `cleanupRetires`);
+                   its answer says whether `TerminateActiveUser` (`retire`, `closeAll`, `deleteRec`) follows.
+                   The model lets it run for any (record, id) at any time — more schedules than the code has.
 The comparisons of `AuthoriseNewSession` / `AuthenticateUser` are the translated terms `Gen.Panel.authoriseChecks`
 / `authenticateChecks` (evaluated in source order). Which parts of the orphan-session repair the tree has is
 `genCfg` (three extracted Booleans); the pinned tree is `pinnedCfg`. -/
@@ -39,12 +44,19 @@ structure Cfg where
   checksRetired : Bool     -- GetSession refuses on a retired record
   marksRetired : Bool      -- TerminateActiveUser retires the record (under sessionsM) before closing its sessions
   guardedDelete : Bool     -- TerminateActiveUser deletes the map entry only if it still is this record
+  cleanupNamesSession : Bool  -- a connection refused by GetSession calls CloseSession(its own session id)
+  cleanupRetires : Bool    -- (otherwise) the clean-up retires the record, under sessionsM, when it finds it empty
 deriving Repr, DecidableEq
 
 def genCfg : Cfg :=
-  ⟨Gen.Panel.getSessionChecksRetired, Gen.Panel.terminateRetiresFirst, Gen.Panel.terminateDeleteGuarded⟩
-def pinnedCfg : Cfg := ⟨false, false, false⟩
-def repairedCfg : Cfg := ⟨true, true, true⟩
+  ⟨Gen.Panel.getSessionChecksRetired, Gen.Panel.terminateRetiresFirst, Gen.Panel.terminateDeleteGuarded,
+   Gen.Panel.refusedCleanupClosesOwnId, Gen.Panel.refusedCleanupRetires⟩
+def pinnedCfg : Cfg := ⟨false, false, false, true, false⟩
+/-- the orphan-session repair (C17) with either clean-up of a refused connection -/
+def orphanRepaired (names retires : Bool) : Cfg := ⟨true, true, true, names, retires⟩
+/-- the tree after the C17 repair, before the C15 one: the refused connection still calls `CloseSession(own id)` -/
+def c17Cfg : Cfg := orphanRepaired true false
+def repairedCfg : Cfg := orphanRepaired false true
 
 structure St where
   store : List (Nat × Info)      -- the database: uid ↦ record (first binding wins; kept duplicate-free by `put`)
@@ -143,6 +155,22 @@ def deleteRec (cfg : Cfg) (s : St) (rid : Nat) : St × Bool :=
         ({ s with pendingDel := s.pendingDel.erase rid, active := s.active.filter (fun e => e.1 != r.uid) }, true)
   else (s, false)
 
+/-- what `dispatchConnection` does with the record when `GetSession` refused its connection `(rid, sid)`: the
+`sessionsM` section; `some true` = `TerminateActiveUser` follows -/
+def refusedCleanup (cfg : Cfg) (s : St) (rid sid : Nat) : St × Option Bool :=
+  if cfg.cleanupNamesSession then
+    -- `user.CloseSession(ci.SessionId, "")`: removes whatever session carries that id NOW; `remaining == 0` terminates
+    match closeLocked s rid sid with
+    | (s', some n) => (s', some (n == 0))
+    | (s', none) => (s', none)
+  else
+    -- names no session: `empty := len(u.sessions) == 0; u.retired = u.retired || empty` (the latter iff `cleanupRetires`)
+    match s.recs[rid]? with
+    | none => (s, none)
+    | some r =>
+      ({ s with recs := s.recs.set rid { r with retired := r.retired || (cfg.cleanupRetires && r.sessions.isEmpty) } },
+       some r.sessions.isEmpty)
+
 def put (s : St) (uid : Nat) (i : Info) : St := { s with store := (uid, i) :: s.store.filter (fun e => e.1 != uid) }
 def del (s : St) (uid : Nat) : St := { s with store := s.store.filter (fun e => e.1 != uid) }
 
@@ -155,6 +183,7 @@ inductive Ev
   | retire (rid : Nat)
   | closeAll (rid : Nat)
   | deleteRec (rid : Nat)
+  | refusedCleanup (rid sid : Nat)
 deriving Repr, DecidableEq
 
 def step (cfg : Cfg) (s : St) : Ev → St
@@ -166,6 +195,7 @@ def step (cfg : Cfg) (s : St) : Ev → St
   | .retire rid => retire cfg s rid
   | .closeAll rid => (closeAll s rid).1
   | .deleteRec rid => (deleteRec cfg s rid).1
+  | .refusedCleanup rid sid => (refusedCleanup cfg s rid sid).1
 
 def run (cfg : Cfg) (s : St) (evs : List Ev) : St := evs.foldl (step cfg) s
 
